@@ -375,6 +375,11 @@ def run(rep: Report, tier: str) -> None:
     from sa.checks.c21 import spelling_grid
     from sa.checks.c19 import period_limits
     spelling_grid(rep, "R01.8", macros, period_limits(P))
+    # ---- R01.10: an engine-level domain error of a scalar operator comes back as the operator's VTL error (shared with C32 R32.2) ----
+    rep.rule("R01.10", "every data-evaluating conn.execute reachable from execute_queries is inside an `except duckdb.Error` handler (all DuckDB error classes: logarithm domain "
+                       "errors are OutOfRangeException, error() is InvalidInputException, failed casts ConversionException)")
+    from sa.checks.c32 import execute_sites_wrapped as _wrapped
+    _wrapped(P, rep, "R01.10")
     rep.assumptions = ["DuckDB scalar functions and arithmetic/comparison operators return NULL on a NULL argument; COALESCE/IS NULL/AND/OR/CASE "
                        "follow SQL semantics; error() never returns", "VTL semantics encoded in the checker: null propagation for the listed "
                        "operator classes, Kleene tables for and/or, null-strict xor/not"]
